@@ -164,6 +164,21 @@ def biased_grammar(r, ledger=None):
 
     stmts = []
     kind = r.random()
+    if kind < 0.12:
+        # an earlier || branch begins with a within-word expression, later branches with plain literals or other
+        # words: a typed prefix that fits nothing of the earlier branch must fall through to the next one
+        pre = r.choice(['--x=', '-k', 'o:'])
+        w = wexpr(pre, r.sample(vals, r.randint(2, 3)), 'same')
+        later = [lit(r.choice(['foo', 'far', 'go'])), seq(lit('zed'), lit('t1')),
+                 wexpr(r.choice(['+y=', 'q:']), r.sample(vals, 2), 'same')]
+        r.shuffle(later)
+        brs = [seq(w, lit('t0')) if r.random() < 0.5 else w] + later[:r.randint(1, 3)]
+        if r.random() < 0.3:
+            brs.insert(0, lit('first'))
+        e = fb(*brs)
+        if r.random() < 0.4:
+            e = seq(lit('head'), e, lit('end'))
+        return [call('cmd', e)]
     if kind < 0.3:
         # same literal starts several || branches / call variants
         h = r.choice(L)
@@ -381,6 +396,13 @@ def run_job(job, acc):
     M1 = refrun.Machine(stmts, ledger.outputs, 'bash')
     vocab = sorted({x[1] for st in stmts for x in gast.walk(st[2] if st[0] == 'call' else st[3]) if x[0] == 'lit'})
     queries = c01.make_queries(M2, r, job[2], vocab)
+    # every first character of the vocabulary as the cursor word at the first position (and behind a leading fixed
+    # word): the prefix that fits nothing of an earlier branch but something of a later one
+    lead = [['head']] if 'head' in vocab else []
+    firsts = sorted({v[:1] for v in vocab if v})
+    for walk in [[]] + lead:
+        for c in firsts[:8]:
+            queries.append({'words': ['cmd'] + walk + [c], 'cword': len(walk) + 1, 'wb': ''})
     for q in queries:
         q['wb'] = ''
     if not queries:
